@@ -87,7 +87,8 @@ class HNode:
         self.kids = kids
 
 
-def materialise(h, module=None, registry=None):
+def materialise(h, module=None, registry=None, base=None):
+    """`base`: a HybridClass the ROOT class derives from (its _xofields are redeclared by the generated class)"""
     import xobjects as xo
 
     if registry is None:
@@ -128,7 +129,7 @@ def materialise(h, module=None, registry=None):
     if module:
         body["__module__"] = module
         body["__qualname__"] = h["name"]
-    cls = type(h["name"], (xo.HybridClass,), body)
+    cls = type(h["name"], (base or xo.HybridClass,), body)
     if module:
         cls._XoStruct.__module__ = module
         cls._XoStruct.__qualname__ = cls._XoStruct.__name__
